@@ -131,8 +131,11 @@ impl CodecChain {
         let mut array_to_array: Vec<NamedArrayToArrayCodec> = vec![];
         let mut array_to_bytes: Option<NamedArrayToBytesCodec> = None;
         let mut bytes_to_bytes: Vec<NamedBytesToBytesCodec> = vec![];
+        // Do not hold the global config while creating codecs: codecs holding a nested codec chain
+        // (e.g. sharding) acquire it again, which deadlocks if a writer is waiting in between
+        let codec_aliases = global_config().codec_aliases_v3().clone();
         for metadata in metadatas {
-            let codec = match Codec::from_metadata(metadata, global_config().codec_aliases_v3()) {
+            let codec = match Codec::from_metadata(metadata, &codec_aliases) {
                 Ok(codec) => Ok(codec),
                 Err(err) => {
                     if metadata.must_understand() {
